@@ -12,10 +12,15 @@ MANIFEST = dict(
     text="proof (counting limits) / partial (timeliness): Thm/C15.lean proves, for every value of each limit and every input sequence, the guard "
          "logic of the match-list cap incl. the warning negotiation, mute bit and frame property (other strings' lists unaffected), VM stack bound, "
          "loop nesting, include depth, strings per rule, identifier length, integer literal range, regex split ids, fiber pool and the timeout "
-         "cadence (clock read every N instructions / every S bytes); operators and constants are regenerated from the C source on every run. "
+         "cadence (clock read every N instructions / every S bytes, for any instruction sequence however it is cut into rules: no opcode writes "
+         "the counter), history-free literal acceptance (every literal rule clears errno before its strtoll) and the configuration set/get round "
+         "trip; operators, constants and these structural facts are regenerated from the C source on every run. "
          "The model is tied to the code by running each limit at L-1, L, L+1, >>L through the real API (and _yr_scan_add_match_to_list, "
          "_yr_re_fiber_create, yr_re_ast_emit_code directly) and diffing with the model's prediction, plus 'library usable afterwards' and "
-         "'results of rule B with/without the limit-hitting rule A'. Timeliness of timeouts is only sampled (6 rule shapes, deadline + delta).",
+         "'results of rule B with/without the limit-hitting rule A'; literal boundaries also in SEQUENCES (rejected literals / underflowing floats "
+         "first: fresh compilers, same compiler, same source); a third of the cases that configure a limit do so around nested "
+         "yr_initialize()/yr_finalize() and read the configuration back. Timeliness of timeouts is only sampled (10 rule shapes incl. hundreds "
+         "of short expensive rules, deadline + delta).",
     design_ref="DESIGN.md §5 C15",
     note=core.TB + "Wall-clock bound of timeouts is a sampled liveness check (delta 5 s); the cost of one candidate verification / one module call "
                    "between two clock reads is not bounded by any model. Regex model covers the fragment lit/any/class/cat/alt/star/plus/range.")
@@ -41,6 +46,14 @@ class Gen:
         self.n = 0
 
     def add(self, kind, body):
+        # every third case that configures a limit does so while "another component" of the process also uses the library:
+        # nested yr_initialize()/yr_finalize() between yr_set_configuration and the use of the limit (h_limits.c nested_use)
+        if body.startswith(("compile ", "scan ")) and any(k in body for k in (" ss=", " mspr=", " mmd=")):
+            self.ncfg = getattr(self, "ncfg", 0) + 1
+            if self.ncfg % 3 == 0:
+                body += " nest=%d nestopen=%d" % (self.r.choice([1, 1, 2]), self.r.choice([0, 1]))
+                if self.r.random() < 0.3:
+                    body += " chunk=%d" % self.r.choice([4096, 2 ** 32 + 4096, self.r.randint(1, 2 ** 40)])
         self.cases.append("%s%s%d %s" % (self.prefix, kind, self.n, body))
         self.n += 1
 
@@ -298,6 +311,67 @@ class Gen:
             rule = "rule r { condition: %s >= 0 }" % txt
             self.add("il", "compile m=intlit value=%d suf=%s lit=%s text=%s" % (v, suf, txt, hx(rule)))
 
+    def literal_sequences(self):
+        # the literal range again, but with HISTORY: rejected literals (dec/hex/oct beyond INT64_MAX) and underflowing float
+        # literals come first — in earlier compilations on the same thread (fresh compilers), earlier in the same compiler,
+        # earlier in the same source — then the boundary literal L-1 / L / L+1 in every base
+        if self.explicit:
+            return
+        M = 2 ** 63 - 1
+        fmt = {10: "%d", 16: "0x%x", 8: "0o%o"}
+        tiny = "0." + "0" * 400 + "1"
+        uid = [0]
+
+        def lit_src(v, base, suf="n"):
+            uid[0] += 1
+            txt = fmt[base] % v + {"n": "", "k": "KB", "m": "MB"}[suf]
+            return "rule r%d { condition: %s >= 0 }" % (uid[0], txt), "%d%s" % (v, suf)
+
+        def float_src():
+            uid[0] += 1
+            return "rule r%d { condition: %s < 1.0 }" % (uid[0], tiny), "f"
+
+        def float_lit_src(v, base):
+            uid[0] += 1
+            return "rule r%d { condition: %s < 1.0 and %s >= 0 }" % (uid[0], tiny, fmt[base] % v), "f+%dn" % v
+
+        def emit(steps):
+            self.add("lq", "litseq steps=%s seq=%s" % (",".join("%s/%s" % (m, d) for m, (src, d) in steps),
+                                                       ",".join(m + hx(src) for m, (src, d) in steps)))
+        rejected = [(M + 1, 10), (2 ** 63, 16), (2 ** 63, 8), (10 ** 30, 10), (2 ** 64, 16), (2 ** 70, 8)]
+        # 1. fresh compilers: every rejected prelude, then every boundary value in every base
+        for pv, pb in rejected:
+            for base in (10, 16, 8):
+                steps = []
+                for v in (M, M - 1, M + 1, M):
+                    steps += [("n", lit_src(pv, pb)), ("n", lit_src(v, base))]
+                emit(steps)
+        # 2. the same compiler: sources with an underflowing float first, then the boundary literals, ending with a rejected one
+        for base in (10, 16, 8):
+            emit([("n", float_src()), ("c", lit_src(M, base)), ("c", lit_src(M - 1, base)), ("c", float_src()), ("c", lit_src(M, base)),
+                  ("c", lit_src(M + 1, base)), ("c", lit_src(M, base)), ("c", lit_src(1, base))])
+            # 3. the same source
+            emit([("n", float_lit_src(M, base)), ("n", float_lit_src(M - 1, base)), ("n", float_lit_src(M + 1, base)), ("c", float_lit_src(M, base))])
+        # 4. suffixes after a rejected literal
+        for suf, mult in (("k", 1024), ("m", 1048576)):
+            b = M // mult
+            emit([("n", lit_src(M + 1, 10)), ("n", lit_src(b, 10, suf)), ("n", lit_src(b + 1, 10, suf)), ("c", lit_src(b, 10, suf)), ("n", lit_src(M, 8))])
+        # 5. random sequences
+        for _ in range(30 if self.tier == "quick" else 300):
+            steps = []
+            for i in range(self.r.randint(2, 8)):
+                m = self.r.choice("nc")
+                u = self.r.random()
+                base = self.r.choice([10, 16, 8])
+                v = self.r.choice([M, M, M - 1, M + 1, 2 ** 63, 2 ** 64 - 1, 2 ** 64, 0, 1, self.r.randint(M - 3, M + 3)])
+                if u < 0.2:
+                    steps.append((m, float_src()))
+                elif u < 0.35:
+                    steps.append((m, float_lit_src(v, base)))
+                else:
+                    steps.append((m, lit_src(v, base)))
+            emit(steps)
+
     def includes(self):
         L = self.c["YR_MAX_INCLUDE_DEPTH"]
         shapes = []
@@ -445,6 +519,9 @@ class Gen:
                 vals = [0, 1, 4096, 2 ** 31, 2 ** 32 - 1, 2 ** 32, 2 ** 32 + 1, 2 ** 32 + 4096, 2 ** 33, 2 ** 63, 2 ** 64 - 1, 1073741824] + \
                        [self.r.randint(0, 2 ** 64 - 1) for _ in range(4)]
             self.add("cf", "cfg key=%s bits=%d name=%s v=%s" % (idx, bits, name, ",".join(map(str, vals))))
+            # the same while another component initialises / finalizes the library between the set and the get
+            for nest, op in ((1, 0), (2, 1)):
+                self.add("cf", "cfg key=%s bits=%d name=%s nest=%d nestopen=%d v=%s" % (idx, bits, name, nest, op, ",".join(map(str, vals[:8]))))
 
     def block_timeouts(self):
         # multi-block scans with blocks far smaller than the clock stride: the deadline must be noticed at a block boundary
@@ -582,7 +659,7 @@ class Gen:
         self.add("mt", line)
 
     def all(self):
-        self.ml(); self.fib(); self.regex(); self.loops(); self.idents(); self.intlits(); self.includes()
+        self.ml(); self.fib(); self.regex(); self.loops(); self.idents(); self.intlits(); self.literal_sequences(); self.includes()
         self.strings_per_rule(); self.stack(); self.set_timeout(); self.loop_stack(); self.fiber_reuse(); self.tmm_reuse(); self.block_timeouts(); self.config_round_trip(); self.matches()
         return self.cases
 
@@ -595,6 +672,11 @@ TIMEOUT_RULES = {
     "regex_dotstar": ('rule t { strings: $a = /a.*b.*c.*d.*e/ condition: $a }', "61*30000000"),
     "hex_jumps": ('rule t { strings: $b = { 61 [0-40] 61 [0-40] 61 [0-40] 62 } condition: $b }', "61*30000000"),
     "regex_alt_plus": ('rule t { strings: $a = /aa(a|b)+c/ condition: $a }', "61*30000000"),
+    # many SHORT rules (a handful of instructions each), every one expensive: the deadline has to be noticed across rule boundaries
+    "short_rules_entropy": ('import "math"\n' + "\n".join('rule e%d { condition: math.entropy(0, filesize) >= 0.0 }' % i for i in range(600)), "61*6000000"),
+    "short_rules_md5": ('import "hash"\n' + "\n".join('rule h%d { condition: hash.md5(%d, filesize - %d) != "x" }' % (i, i, i) for i in range(700)), "61*6000000"),
+    "short_rules_mean": ('import "math"\n' + "\n".join('rule m%d { condition: math.mean(%d, filesize) >= 0.0 and math.deviation(0, filesize, 1.0) >= 0.0 }' % (i, i)
+                                                        for i in range(400)), "61*6000000"),
     "match_loops": ('rule t { strings: $a = "aaaa" condition: for all i in (1..#a) : ( for all j in (1..#a) : ( @a[i] + @a[j] >= 0 ) ) }', "61*30000000"),
 }
 
@@ -680,7 +762,7 @@ def run(tier, replay=None):
                 ("small", Gen(core.rng("C15/small"), cs, True, tier, "s").all())]
     evaluations, nontrivial, hist, samples, validated = 0, set(), {}, [], 0
     LIMIT_TOKENS = ("TOO_MANY_MATCHES", "EXEC_STACK_OVERFLOW", "LOOP_NESTING", "includes_", "TOO_MANY_STRINGS", "identifier_too_long",
-                    "INTEGER_OVERFLOW", "TOO_COMPLEX", "TOO_LARGE", "TOO_MANY_RE_FIBERS", "tmm=", "000000000")
+                    "INTEGER_OVERFLOW", "TOO_COMPLEX", "TOO_LARGE", "TOO_MANY_RE_FIBERS", "tmm=", "000000000", "cfg.")
     for variant, cases in sets:
         if not cases:
             continue
